@@ -244,11 +244,11 @@ def _non_incremental(s):
 
 ispec.contract(
     'TBRiROAS._is_fixed_cost_scenario', params={}, result=TBool(),
-    modifies=[], props=('C07',),
+    modifies=[], props=('C07', 'C18'),
     requires=[('the control group has rows in the test period (else .loc '
                'raises KeyError)',
                lambda s: _non_incremental(s)[1] != z3.EmptySet(I))],
-    ensures=[('C07 fixed exactly when the order of magnitude of (pre-period '
+    ensures=[('C07/C18 fixed exactly when the order of magnitude of (pre-period '
               'cost of all groups + test-period cost of the control group) '
               'is below 1e-10',
               lambda s: B(s.result) == (FLOAT_ORDER(
